@@ -1,5 +1,5 @@
 (** C13 - push constant range covers the variable, from offset 0, once. *)
-From W2W Require Import Wf C13Spec C13Proof.
+From W2W Require Import Wf C03Spec C13Spec C13Proof Obs C13Obs.
 
 (** If and only if the module has a push constant variable the output has PUSH_CONSTANT_STAGES and exactly
     one range [0, size) using that constant, size = the Layouter (WGSL) size of the variable's type; the
@@ -19,3 +19,25 @@ Example C13_nonvacuous :
   exists out_, gen ex_mod "" None (mkOptions false false false false MVRust) = Ok out_ /\
     o_pc_stages out_ = Some (st_of Compute) /\ o_pc_ranges out_ = [mkOutPcRange true 0 16].
 Proof. split; [reflexivity|]. split; [reflexivity|]. eexists. split; [|split]; vm_compute; reflexivity. Qed.
+
+(** The property as stated, over what the generated code DOES ([Spec/Obs.v]: the push constant ranges of the
+    descriptor [create_pipeline_layout] hands to the device, with [PUSH_CONSTANT_STAGES] resolved to the exported
+    constant's value). If the module has a push constant variable (the first one, [h]): the constant is exported with
+    the stage set of the specification and the descriptor carries exactly one range, [0, WGSL size of the type), with
+    that same stage set. If it has none: no constant and no range. *)
+Theorem C13_holds : forall m src inc o out_,
+  wf m = true -> pc_size_agrees m = true -> gen m src inc o = Ok out_ ->
+  match find_pc_from (globals m) 0 with
+  | None => o_pc_stages out_ = None /\ obs_pc_ranges out_ = Some []
+  | Some h =>
+      exists gl t, nth_error (globals m) h = Some gl /\ get_ty m (g_ty gl) = Some t /\
+        o_pc_stages out_ = Some (pc_stage_spec m h) /\
+        obs_pc_ranges out_ = Some [(pc_stage_spec m h, 0%N, t_size t)]
+  end.
+Proof. exact C13_obs_gen. Qed.
+Print Assumptions C13_holds.
+
+Example C13_obs_nonvacuous :
+  exists out_, gen ex_mod "" None (mkOptions false false false false MVRust) = Ok out_ /\
+    obs_pc_ranges out_ = Some [(st_of Compute, 0%N, 16%N)].
+Proof. eexists. split; vm_compute; reflexivity. Qed.
